@@ -9,7 +9,7 @@ from pv import env, gens
 
 ID = "C13"
 LEVEL = "exploration"
-N = {"quick": 30, "thorough": 450}
+N = {"quick": 60, "thorough": 450}
 BUDGET_S = {"quick": 170, "thorough": 45 * 60}
 RULE = ("cases = histories of up to 30 (quick: 14) operations drawn from compose / compose_tactics, quotient, merge, refines, rename, copy, "
         "term-list simplify, elimination by refining / relaxing, optimize / bounds, to/from dict, to/from strings, parsing, "
